@@ -288,9 +288,14 @@ def _check_write_routine(ctx, W):
             for ph, fl in x.state:
                 if ph in ("D", "K") and fl != "F":
                     bad.append((ph, fl, x.node, f"return at line {x.line}"))
+                if ph == "X" and fl != "F":
+                    # the with block was left by an exception (open/write/flush/fsync failed) and the routine nevertheless RETURNS:
+                    # `return` inside `finally`, or a handler that swallows
+                    bad.append((ph, fl, x.node, f"return at line {x.line} after the write had failed"))
         n_paths = sum(len(s) for s, _n in sem.closes) + sum(len(x.state) for x in exits if x.kind == "return")
         why = {"D": "data written but not flushed from the user-space buffer before the sync / close (fsync would precede the write)",
-               "K": "data handed to the kernel but no os.fsync(f.fileno()) on this path"}
+               "K": "data handed to the kernel but no os.fsync(f.fileno()) on this path",
+               "X": "an exception of open/write/flush/fsync is discarded (return inside finally, or a swallowing handler): the write future succeeds, set() returns, and nothing is durably stored"}
         ok = not bad
         msg = None
         if bad:
@@ -596,6 +601,10 @@ MUTATION_SCOPE = ['db/file_cache:FileCache._write_file',
                   'db/helpers:key_to_file_path']
 
 SEEDS = [
+    Seed("write-error-swallowed", "fault", "db/file_cache",
+         "        with open(os.path.join(self.root_path, file_name), 'wb') as f:\n            f.write(new_file_contents)\n            if use_fsync:\n                f.flush()\n                os.fsync(f.fileno())",
+         "        try:\n            with open(os.path.join(self.root_path, file_name), 'wb') as f:\n                f.write(new_file_contents)\n                if use_fsync:\n                    f.flush()\n                    os.fsync(f.fileno())\n        except OSError:\n            pass",
+         rule="C17-R1"),
     Seed("drop-flush", "fault", "db/file_cache", "                f.flush()\n", "", rule="C17-R1"),
     Seed("drop-fsync", "fault", "db/file_cache", "                os.fsync(f.fileno())\n", "                pass\n", rule="C17-R1"),
     Seed("fsync-before-write", "fault", "db/file_cache",
